@@ -1482,3 +1482,105 @@ def c14(ctx):
                        "(accepted files compared gate by gate and re-marshalled byte for byte), Marshal/Parse/Marshal of generated signatures (empty, "
                        "long and non-ASCII names, all scalar types, nested arrays, struct arguments with compound members, headers and names longer "
                        "than the parser's buffer, INV-only circuits) and of compiled programs, and mutated valid files; non-trivial = >= 2 gate records")
+
+
+# ---------------------------------------------------------------------- C08
+DETERM_CFG = """SPECIFICATION %s
+CONSTANTS
+  Progs = %s
+  SizeIds = %s
+  ValIds = %s
+  MaxOps = %d
+  Procs = %s
+  Orders = {1, 2}
+  LeakMemo = %s
+  LeakCache = %s
+  LeakOrder = %s
+%s
+CHECK_DEADLOCK FALSE
+"""
+
+
+def tla_set(xs):
+    return "{" + ", ".join('"%s"' % x for x in xs) + "}"
+
+
+@prop("C08")
+def c08(ctx):
+    thorough = ctx.tier == "thorough"
+    ctx.build()
+    ctx.assumptions += ["Go randomises map iteration per range statement and per process: order dependence is explored by repeating every request "
+                        "several times in several OS processes, not by forcing an order (no hook can do that without changing the code under test)",
+                        "a request is (program, input sizes, parameter values); the sharing modes are fresh Params+Compiler, a new Compiler on a "
+                        "shared Params object (what apps/garbled does) and a reused Compiler instance",
+                        "the byte-identical circuit is compared through the SHA-256 of Circuit.Marshal and of the Params.SSAOut text"]
+    # (M) the design: no hidden state reaches the output; every named leak is rejected
+    ctx.tlc_expect_ok("Determ", "Determ_mc.cfg", name="determ-mc", timeout=3000,
+                      cfg_text=DETERM_CFG % ("Spec", tla_set(["mul", "libs"]), tla_set(["s16", "s32"]), tla_set(["default", "gmw"]),
+                                             4 if thorough else 3, "{1, 2}", "FALSE", "FALSE", "FALSE", "INVARIANT Deterministic"))
+    rejected = []
+    for i, name in enumerate(("memo", "cache", "order")):
+        flags = ["FALSE"] * 3
+        flags[i] = "TRUE"
+        r = ctx.tlc("Determ", "Determ_mc.cfg", name="determ-guard-" + name,
+                    cfg_text=DETERM_CFG % ("Spec", tla_set(["mul"]), tla_set(["s16", "s32"]), tla_set(["default"]), 3, "{1, 2}",
+                                           flags[0], flags[1], flags[2], "INVARIANT Deterministic"))
+        if r["status"] != "invariant":
+            raise Broken("Determ.tla does not reject the leak '%s'" % name)
+        rejected.append("leak-" + name)
+    ctx.cov["spec_rejects_deviations"] = rejected
+    # (G) histories through real compilations in separate processes
+    combos = [(["mul"], ["s16", "s32", "s64"], ["default"], 5, 8),
+              (["mul"], ["s16", "s32"], ["gmw"], 4, 4),
+              (["mul", "arith"], ["s24x40"], ["default", "thresh8"], 5, 4),
+              (["arith", "funcs"], ["none"], ["default", "gmw"], 6, 5),
+              (["libs"], ["none"], ["default", "prune"], 5, 4)]
+    if thorough:
+        combos = [(p, s, v, n + 2, k * 4) for (p, s, v, n, k) in combos]
+        combos += [(["hmac"], ["none"], ["default"], 5, 4), (["aes"], ["none"], ["default", "gmw"], 4, 3),
+                   (["libs", "funcs", "mul"], ["s16", "none"], ["default", "gmw", "prune"], 8, 12)]
+    hists = []
+    for ci, (progs, sizes, vals, nops, num) in enumerate(combos):
+        g = ctx.tlc("DetermGen", "Determ_gen.cfg", mode="sim", workers=1, sim="num=%d" % num, depth=nops + 3, name="determ-gen-%d" % ci, timeout=3000,
+                    cfg_text=DETERM_CFG % ("GSpec", tla_set(progs), tla_set(sizes), tla_set(vals), nops, "{1, 2, 3}", "FALSE", "FALSE", "FALSE",
+                                           "CONSTRAINT Emit"))
+        if g["status"] != "ok" or not g["cases"]:
+            raise Broken("DetermGen failed: %s\n%s" % (g["status"], g["out"][-2000:]))
+        hists += g["cases"]
+    hf = os.path.join(ctx.tmp, "c08hist.ndjson")
+    write_ndjson(hf, hists)
+    rf = os.path.join(ctx.tmp, "c08res.ndjson")
+    d = os.path.join(ctx.tmp, "c08trace")
+    os.makedirs(d, exist_ok=True)
+    tf = os.path.join(d, "determ_trace.ndjson")
+    ctx.run_vh(["c08", "run", hf, rf, tf], timeout=3400)
+    ctx.absorb(rf)
+    events = read_ndjson(tf)
+    if not events:
+        raise Broken("no compilation was recorded")
+    errs = [e for e in events if e["err"]]
+    ctx.cov["compilations"] = len(events)
+    ctx.cov["compile_errors"] = len(errs)
+    if len(errs) * 2 > len(events):
+        raise Broken("most compilations fail: %s" % errs[0]["err"])
+    # (T) one key, one circuit, one SSA listing - decided by DetermTrace.tla over all histories
+    r = ctx.tlc("DetermTrace", "DetermTrace.cfg", mode="trace", name="determtrace", files=[tf], timeout=3000)
+    if r["status"] != "ok":
+        raise Broken("DetermTrace failed: %s\n%s" % (r["status"], r["out"][-3000:]))
+    for v in r["cases"]:
+        e, ref = events[v["l"] - 1], events[v["ref"] - 1]
+        prog, sizes, vals = e["key"].split("/")
+        where = "same-process" if (e["h"], e["proc"]) == (ref["h"], ref["proc"]) else "other-process"
+        ctx.violation("nondet:%s:%s:%s:%s-%s:%s" % (v["what"], prog, vals, ref["share"], e["share"], where),
+                      "%s compiled with %s (history %d, operation %d, process %d) gives %s %s, but %s with %s (history %d, operation %d, process %d)"
+                      % (e["key"], e["share"], e["h"], e["i"], e["proc"], v["what"], e[{"circuit": "circ", "ssa": "ssa", "error": "err"}[v["what"]]] or "-",
+                         ref[{"circuit": "circ", "ssa": "ssa", "error": "err"}[v["what"]]] or "-", ref["share"], ref["h"], ref["i"], ref["proc"]))
+    ctx.cov["traces_validated_against_impl"] += len(events)
+    keys = {}
+    for e in events:
+        keys.setdefault(e["key"], 0)
+        keys[e["key"]] += 1
+    ctx.cov["requests"] = len(keys)
+    ctx.cov["min_repeats_per_request"] = min(keys.values())
+    ctx.cov["rule"] = ("one evaluation = one history of 4..8 compile operations spread over up to 3 OS processes; every operation is an event (request key, "
+                       "circuit hash, SSA hash); DetermTrace.tla requires one output per request over all histories; non-trivial = >= 3 operations")
